@@ -1,3 +1,4 @@
+// C03.a: booster::aio::details::advance (what is left to send after a short write), real code.
 // C03.c: FastCGI STDOUT framing (src/fastcgi_api.cpp, fastcgi::format_output / prepare_eof), real code.
 // The connection object is raw storage with the members the function touches constructed; the
 // function only builds a gather list, which an independent de-framer walks here.
@@ -10,6 +11,30 @@
 #include "verif.h"
 
 typedef cppcms::impl::cgi::fastcgi fastcgi;
+
+// buffer_impl<char const*>::add with the growth of its std::vector taken out (symbolic build only: the
+// stub in models/stubs_c03.c forwards add() here; the native build uses the real add).  Same observable
+// behaviour -- empty chunks ignored, first chunk kept in entry_, from the second on everything lives in
+// vec_ -- but vec_'s storage is one block of 8 entries obtained on first use, so libstdc++'s
+// reallocation (memmove of pointer-carrying PODs) is never executed.  A ninth chunk is reported as a bound.
+extern "C" void verif_buffer_add(booster::aio::buffer_impl<char const *> *b, char const *p, size_t s)
+{
+    typedef booster::aio::buffer_impl<char const *>::entry entry;
+    if (s == 0) return;
+    if (b->size_ == 0) { b->entry_.ptr = p; b->entry_.size = s; b->size_ = 1; return; }
+    if (b->vec_._M_impl._M_start == 0) {
+        entry *a = static_cast<entry *>(::operator new(8 * sizeof(entry)));
+        b->vec_._M_impl._M_start = b->vec_._M_impl._M_finish = a;
+        b->vec_._M_impl._M_end_of_storage = a + 8;
+    }
+    if (b->size_ == 1) *b->vec_._M_impl._M_finish++ = b->entry_;
+    CHECKM(b->vec_._M_impl._M_finish != b->vec_._M_impl._M_end_of_storage, "allocation bound: more than 8 chunks in one gather list (unwinding assertion)");
+    ASSUME(b->vec_._M_impl._M_finish != b->vec_._M_impl._M_end_of_storage);
+    b->vec_._M_impl._M_finish->ptr = p;
+    b->vec_._M_impl._M_finish->size = s;
+    b->vec_._M_impl._M_finish++;
+    b->size_ = b->vec_._M_impl._M_finish - b->vec_._M_impl._M_start;
+}
 static char g_payload[8];     // only its address is used: format_output never dereferences the data
 
 extern "C" void h_c03c_fcgi_framing()
@@ -65,5 +90,45 @@ extern "C" void h_c03c_fcgi_framing()
         WITNESS("completed");
     } else { CHECKM(i == g.second, "trailing entries after the last record"); WITNESS("not completed"); }
     if (records == 2) WITNESS("two records");
+    VERIF_END();
+}
+
+// C03.a: after the socket accepted n bytes, advance(buf, n) describes exactly the bytes of buf after
+// the first n: the chunks are a suffix of the original chunk list, every chunk ends where its source
+// chunk ends, only the first may be shortened, and the byte count is max(total - n, 0).
+static char g_src[8]; // addresses only
+extern "C" void h_c03a_advance()
+{
+    unsigned k = verif_param(0);
+    booster::aio::const_buffer *b = new booster::aio::const_buffer();
+    size_t sz[4];
+    char const *pt[4];
+    size_t total = 0;
+    for (unsigned i = 0; i < k; i++) {
+        sz[i] = nondet_u64();
+        ASSUME(sz[i] >= 1 && sz[i] <= (1ull << 40));
+        pt[i] = g_src + (size_t(i) << 44);
+        b->add(pt[i], sz[i]);
+        total += sz[i];
+    }
+    size_t n = nondet_u64();
+    booster::aio::const_buffer *r = new booster::aio::const_buffer(booster::aio::details::advance(*b, n));
+    std::pair<booster::aio::const_buffer::entry const *, size_t> g = r->get();
+    size_t m = g.second;
+    CHECKM(m <= k, "more chunks after advance than before");
+    size_t left = 0;
+    for (unsigned j = 0; j < m && j < 4; j++) {
+        unsigned i = k - m + j; // the source chunk this one must be the tail of
+        CHECKM(g.first[j].size >= 1 && g.first[j].size <= sz[i], "chunk after advance is empty or longer than its source chunk");
+        CHECKM(g.first[j].ptr + g.first[j].size == pt[i] + sz[i], "chunk after advance does not end where its source chunk ends");
+        if (j > 0) CHECKM(g.first[j].size == sz[i], "a chunk other than the first was shortened");
+        left += g.first[j].size;
+    }
+    CHECKM(left == (n >= total ? 0 : total - n), "bytes left after advance differ from total - n");
+    CHECKM(r->bytes_count() == left && r->empty() == (left == 0), "bytes_count()/empty() disagree with the chunk list");
+    if (m > 0 && m < k) WITNESS("whole chunks consumed");
+    if (m > 0 && g.first[0].size < sz[k - m]) WITNESS("chunk split");
+    if (m == 0) WITNESS("everything consumed");
+    if (m == k) WITNESS("no chunk consumed");
     VERIF_END();
 }
